@@ -18,7 +18,7 @@ func init() {
 			"only leads to returns of ErrClosed. Excepted: ExecuteBatch's empty-batch return (the property says non-empty). Snapshot's cached return is admitted because (CL-1b) Close performs " +
 			"close(stopCh) and invalidateLatestSnapshotLOCKED() in one critical section and a non-nil latestSnapshot is only stored behind newSnapshotLOCKED's nil-error edge.",
 		Props:      []string{"C16"},
-		Floor:      5,
+		Floor: 6,
 		Run:        ruleCL1,
 		Exceptions: []string{"(*collection).ExecuteBatch: return on the `b == nil || b.isEmpty()` edge – an empty batch changes nothing and the property only speaks of non-empty batches"},
 	})
@@ -26,14 +26,14 @@ func init() {
 		ID:    "CL-2",
 		Doc:   "Wait loops: every sync.Cond.Wait lies in a loop, and every cycle from the Wait back to itself evaluates isClosed() with an edge that leaves the loop (a woken waiter re-checks both its condition and closedness).",
 		Props: []string{"C16"},
-		Floor: 2,
+		Floor: 1,
 		Run:   ruleCL2,
 	})
 	register(&Rule{
 		ID:    "CL-3",
 		Doc:   "Close wakes everybody: in the function that closes stopCh, every *sync.Cond field of collection is Broadcast after the close and before the collection lock is released.",
 		Props: []string{"C16"},
-		Floor: 2,
+		Floor: 1,
 		Run:   ruleCL3,
 	})
 	register(&Rule{
@@ -41,7 +41,7 @@ func init() {
 		Doc: "Bounded top: the only function storing a non-nil stackDirtyTop is ExecuteBatch; that store is reachable only through the `stackDirtyTop == nil` edge or the false edge of " +
 			"`len(stackDirtyTop.a) >= maxPreMergerBatches` (re-evaluated after every wake-up), and buildStackDirtyTop appends the batch's segment outside any loop (once).",
 		Props: []string{"C16"},
-		Floor: 2,
+		Floor: 1,
 		Run:   ruleCL4,
 	})
 	register(&Rule{
@@ -49,7 +49,7 @@ func init() {
 		Doc: "Cancellable blocking: every channel send / receive in a method of collection (closures included) is either a select that also offers `<-m.stopCh` or has a default, or one of the " +
 			"table of proven-ready operations (Close's waits for doneMergerCh / donePersisterCh, whose senders are stop-driven).",
 		Props:      []string{"C16"},
-		Floor:      5,
+		Floor: 3,
 		Run:        ruleCL5,
 		Exceptions: []string{"(*collection).Close: <-m.doneMergerCh and <-m.donePersisterCh – both goroutines exit once stopCh is closed (CL-6)"},
 	})
@@ -58,7 +58,7 @@ func init() {
 		Doc: "Background loops notice Close: in runPersister, runMerger and idleMergerWaker every cycle of every loop passes a stop check – a call of isClosed(), a select with `<-m.stopCh`, " +
 			"a call of mergerWaitForWork (whose first result reports the stop), or the load of stats.TotCloseBeg – whose stop edge leaves the loop; and mergerWaitForWork's select offers `<-m.stopCh`.",
 		Props: []string{"C16"},
-		Floor: 3,
+		Floor: 2,
 		Run:   ruleCL6,
 	})
 }
